@@ -133,6 +133,12 @@ func (srv *Server) handleChannel(ctx context.Context, c *ServerChannel) {
 		return
 	}
 
+	if !c.Established() {
+		// the handshake ended with a failed session
+		_ = c.Close()
+		return
+	}
+
 	established := srv.config.Established
 	if established != nil {
 		established(c.sessionID, c)
